@@ -146,6 +146,9 @@ def apply_mirror(world, name, op):
         parent[key] = bytes(node) + bytes(op[2])
     elif kind == "todir":
         parent[key] = {}
+    elif kind == "todir_holding":
+        # the listed file becomes a directory that holds copies of it under the given names (`mkdir h; mv f h/f; mv h f`)
+        parent[key] = {bytes(n): bytes(node) for n in op[2]}
     elif kind == "same":
         parent[key] = bytes(node)
     else:
@@ -181,6 +184,13 @@ def apply_disk(S, name, op):
             f.write(op[2])
     elif kind == "todir":
         os.remove(p); os.mkdir(p)
+    elif kind == "todir_holding":
+        with open(p, "rb") as f:
+            data = f.read()
+        os.remove(p); os.mkdir(p)
+        for n in op[2]:
+            with open(os.path.join(p, n), "wb") as f:
+                f.write(data)
     elif kind == "same":
         with open(p, "rb") as f:
             data = f.read()
@@ -584,7 +594,13 @@ def gen_content(r, p, single, flavour):
         if flavour == "last-partial" and i == n - 1:
             d = [b"zz"]
         # names a shell or another platform would treat specially are ordinary bytes here (a back-slash is not a separator)
-        leaf = b"zq%d" % i + r.choice([b"", b".bin", " é".encode(), b" sp", b"", b".bin", b" back\\slash", b"'q\"", b"#h", b"a:b", b"%41", b"-x"])
+        # ... and names that are valid UTF-8 but not in Unicode normal form C (decomposed accents as macOS and many archivers
+        # write them, OHM SIGN, conjoining jamo) are listed and opened byte for byte (added after seeded change C02-14: the
+        # written path components were composed to NFC, so the fresh torrent named files that do not exist)
+        leaf = b"zq%d" % i + r.choice([b"", b".bin", " é".encode(), b" sp", b"", b".bin", b" back\\slash", b"'q\"", b"#h", b"a:b", b"%41", b"-x",
+                                       "e\u0301".encode(), "\u2126".encode(), "\u1112\u1161\u11ab".encode(), "u\u0308.bin".encode()])
+        if d and r.random() < 0.25:
+            d = d[:-1] + [d[-1] + r.choice(["a\u030a".encode(), "\u212b".encode()])]
         vfy.tree_set(tree, d + [leaf], r.randbytes(sizes[i]))
     return tree
 
@@ -595,7 +611,7 @@ def gen_edit(r, world, name, p, counter, malformed):
     files = walk_files(node) if node is not None else []
     dirs = walk_dirs(node) if node is not None else []
     single = isinstance(node, (bytes, bytearray))
-    kinds = ["flip", "flip", "truncate", "append", "delete", "todir", "same", "add"]
+    kinds = ["flip", "flip", "truncate", "append", "delete", "todir", "same", "add", "todir_holding"]
     if malformed:
         kinds += ["parent_to_file", "rm_root", "add", "delete"]
     for _ in range(20):
@@ -643,6 +659,12 @@ def gen_edit(r, world, name, p, counter, malformed):
             return ["append", comps, r.randbytes(r.choice([1, 1, 2, p]))[: max(1, min(p, 70))]]
         if k in ("delete", "todir", "same"):
             return [k, comps]
+        if k == "todir_holding":
+            # a directory in the file's place that holds the original bytes under the file's own name, the torrent's possible
+            # names and the input's name: still not "a regular file holding the bytes" (added after seeded change C02-13: a
+            # single-file torrent pointed at a directory was looked up inside it under the torrent's name)
+            own = comps[-1] if comps else name
+            return [k, comps, sorted({own, name, b"renamed", b"other name"})]
     return ["add", [b"unlisted-fallback%d" % counter[0]], b"x"]
 
 
